@@ -44,6 +44,19 @@ pub mod jsonwebtoken {
         pub validate_exp: bool, pub validate_nbf: bool, pub validate_aud: bool,
         pub aud: Option<Seq<Seq<char>>>, pub required_spec_claims: ClaimSet, pub validate_signature: bool,
     }
+    // what a Validation asks for, as a value (the library's decision is a function of token, key and this)
+    pub struct VV { pub algorithms: Seq<Algorithm>, pub leeway: u64, pub validate_exp: bool, pub validate_nbf: bool, pub validate_aud: bool,
+                    pub aud: Option<Seq<Seq<char>>>, pub required: Set<Seq<char>>, pub validate_signature: bool }
+    impl Validation {
+        pub open spec fn vv(&self) -> VV {
+            VV { algorithms: self.algorithms@, leeway: self.leeway, validate_exp: self.validate_exp, validate_nbf: self.validate_nbf, validate_aud: self.validate_aud,
+                 aud: self.aud, required: self.required_spec_claims@, validate_signature: self.validate_signature }
+        }
+    }
+    // A-JWT: `decode` refuses a token only if the library's validation of (token, key, settings) fails; `decode_header` only if the
+    // header segment cannot be decoded.  Both are functions of their arguments alone (no hidden state).
+    pub uninterp spec fn lib_accepts(tok: Seq<char>, key: DecodingKey, v: VV) -> bool;
+    pub uninterp spec fn header_decodable(tok: Seq<char>) -> bool;
     impl Validation {
         #[verifier::external_body]
         pub fn new(alg: Algorithm) -> (r: Validation)
@@ -150,13 +163,14 @@ pub mod jsonwebtoken {
     }
     #[verifier::external_body]
     pub fn decode_header(token: &str) -> (r: Result<Header, JwtError>)
-        ensures r is Ok ==> r->Ok_0 == hdr_of(token@)
+        ensures r is Ok ==> r->Ok_0 == hdr_of(token@), r is Err ==> !header_decodable(token@),
     { unimplemented!() }
     #[verifier::external_body]
     pub fn decode<T: JwtClaims>(token: &str, key: &DecodingKey, v: &Validation) -> (r: Result<TokenData<T>, JwtError>)
         ensures
             r is Ok ==> jwt_accept(token@, *key, *v),   // one direction only: what acceptance implies (the converse has more cases, e.g. an unexpected aud claim)
             r is Ok ==> r->Ok_0.header == hdr_of(token@) && r->Ok_0.claims.jclaims() == claims_of(token@),
+            r is Err ==> !lib_accepts(token@, *key, v.vv()),
     { unimplemented!() }
     pub trait JwtClaims: Sized { spec fn jclaims(&self) -> Seq<(Seq<char>, J)>; }
     impl JwtClaims for Map<String, Value> { open spec fn jclaims(&self) -> Seq<(Seq<char>, J)> { self@ } }
